@@ -39,8 +39,14 @@ const ScopeFloatDivZero = "float-division-by-constant-zero"
 // position in the case clause is not verified (C03-F5).
 const ScopeLabelledFallthrough = "labelled-fallthrough"
 
+// ScopeStructKeyNamedLikeGlobal: a keyed struct literal whose field name is also
+// the name of a package-level declaration: the dependency analysis, which runs
+// before type checking, takes the key for a reference to that declaration and
+// can report a false "typechecking loop" (C03-F6).
+const ScopeStructKeyNamedLikeGlobal = "struct-literal-key-named-like-package-level-declaration"
+
 // AllScopes lists the scope names the worker understands.
-var AllScopes = []string{ScopeLabelledBranchInRange, ScopeRecursiveType, ScopeIndexEqualLen, ScopeFloatDivZero, ScopeLabelledFallthrough}
+var AllScopes = []string{ScopeLabelledBranchInRange, ScopeRecursiveType, ScopeIndexEqualLen, ScopeFloatDivZero, ScopeLabelledFallthrough, ScopeStructKeyNamedLikeGlobal}
 
 // inScope returns the first active scope the program falls in, or "".
 func inScope(r *gotypes.Result, active []string) string {
@@ -63,6 +69,10 @@ func inScope(r *gotypes.Result, active []string) string {
 			}
 		case ScopeFloatDivZero:
 			if hasFloatDivZero(r) {
+				return sc
+			}
+		case ScopeStructKeyNamedLikeGlobal:
+			if hasStructKeyNamedLikeGlobal(r) {
 				return sc
 			}
 		case ScopeLabelledFallthrough:
@@ -221,4 +231,53 @@ func hasRecursiveType(f *ast.File) bool {
 		}
 	}
 	return false
+}
+
+// hasStructKeyNamedLikeGlobal: a key of a struct literal (by type information
+// when available, else any identifier key of a composite literal) that is the
+// name of a package-level declaration of the file.
+func hasStructKeyNamedLikeGlobal(r *gotypes.Result) bool {
+	globals := map[string]bool{}
+	for _, d := range r.File.Decls {
+		switch x := d.(type) {
+		case *ast.FuncDecl:
+			globals[x.Name.Name] = true
+		case *ast.GenDecl:
+			for _, sp := range x.Specs {
+				switch y := sp.(type) {
+				case *ast.ValueSpec:
+					for _, n := range y.Names {
+						globals[n.Name] = true
+					}
+				case *ast.TypeSpec:
+					globals[y.Name.Name] = true
+				}
+			}
+		}
+	}
+	found := false
+	ast.Inspect(r.File, func(n ast.Node) bool {
+		cl, ok := n.(*ast.CompositeLit)
+		if !ok {
+			return true
+		}
+		isStruct := true
+		if r.Info != nil {
+			if tv, ok := r.Info.Types[cl]; ok && tv.Type != nil {
+				_, isStruct = tv.Type.Underlying().(*types.Struct)
+			}
+		}
+		if !isStruct {
+			return true
+		}
+		for _, e := range cl.Elts {
+			if kv, ok := e.(*ast.KeyValueExpr); ok {
+				if id, ok := kv.Key.(*ast.Ident); ok && globals[id.Name] {
+					found = true
+				}
+			}
+		}
+		return true
+	})
+	return found
 }
